@@ -160,6 +160,30 @@ fn check_word(pair: &Pair, us: &[Unit], word: &[usize], st: &mut Stats, bits: u3
         a = ta;
         b = tb;
     }
+    // ctrl-backspace while a sign is waiting: the whole word, the waiting sign included, is gone; the last
+    // unit typed again afterwards must come out as if nothing had been typed before
+    if word.len() == 2 && us[word[1]].starts_with_left_sign {
+        let (first, last) = (&us[word[0]], &us[word[1]]);
+        pair.on.finish().map_err(pf)?;
+        pair.off.finish().map_err(pf)?;
+        let shown = type_keys(&pair.on, &first.typewriter, &case)?;
+        if !shown.ends_with(model::HASANTA) && !shown.is_empty() {
+            let (c, m) = last.typewriter[0];
+            pair.on.key(c, m, 0).map_err(pf)?;
+            let r = pair.on.backspace(true).map_err(pf)?;
+            if !r.is_empty() || pair.on.ongoing() {
+                return Err(Failure::new("ctrl-backspace-keeps-waiting-sign", format!("ctrl-backspace on {shown:?} with a waiting sign returned {} ongoing={}", r.short(), pair.on.ongoing()), case()));
+            }
+            let x = type_keys(&pair.on, &last.typewriter, &case)?;
+            let y = type_keys(&pair.off, &last.unicode, &case)?;
+            if x != y {
+                return Err(Failure::new("waiting-sign-survives-ctrl-backspace", format!("after ctrl-backspace unit {} gives {x:?}, expected {y:?}", last.desc), case()));
+            }
+            st.count("ctrl-backspace-with-waiting-sign-checks", 1);
+        }
+        pair.on.finish().map_err(pf)?;
+        pair.off.finish().map_err(pf)?;
+    }
     if a != b {
         let kind = if a.contains(model::ZWJ) && !b.contains(model::ZWJ) { "order-divergence-zwj-lost" } else { "order-divergence" };
         return Err(Failure::new(kind, format!("word {}: Unicode order/option off gives {a:?}, typewriter order/option on gives {b:?}", desc()), case()));
